@@ -227,7 +227,7 @@ func runCLI(w *out.W, tier string) {
 	// dangling references: the whole grid once (thorough: 8 variants)
 	nd := 1
 	if tier == "thorough" {
-		nd = 8
+		nd = 5
 	}
 	for v := 0; v < nd; v++ {
 		for gi, d := range danglingGrid() {
